@@ -35,6 +35,6 @@ def server_verification_hash(challenge: int) -> int:
 
 def _mod(a, b):
     result = a % b
-    if a < 0:
+    if a < 0 and result != 0:
         result -= b
     return result
